@@ -16,7 +16,7 @@ from ..runner import new_part, violation, digest, exc_info
 
 PID = 'C04'
 LEVEL = 'exploration'
-RULE = ('reference sets over tables a(id int, x varchar), b(id int, x varchar), s.c(id uuid, x text): every single reference of '
+RULE = ('reference sets over tables a(id int, x varchar), b(id int, x varchar), s.a(id uuid, x text): every single reference of '
         'kind{>,<,-,<>} x inline x arity{1,2} x 9 (left,right) table pairs x name x 6x6 actions; every ordered pair over the reduced '
         'product (actions fixed); thorough adds triples over a core set; API-built, plus the parsed route where DBML can express the reference; '
         'distinct_nontrivial = distinct reference sets whose SQL was read back and compared')
@@ -25,7 +25,7 @@ ASSUMPTIONS = ['verif/ddl.py recognises FOREIGN KEY clauses inside CREATE TABLE 
                'foreign keys back are what the statement fixes',
                'a reference set the container rejects as duplicate is outside the space (C09)']
 
-TABLES = [('public', 'a'), ('public', 'b'), ('s', 'c')]
+TABLES = [('public', 'a'), ('public', 'b'), ('s', 'a')]   # s.a collides with public.a by bare name
 ACTIONS = [None, 'cascade', 'restrict', 'set null', 'set default', 'no action']
 KINDS = ['>', '<', '-', '<>']
 
@@ -38,7 +38,7 @@ def bounds(tier):
 def tables():
     return [A.table('a', [A.col('id', 'int'), A.col('x', 'varchar')]),
             A.table('b', [A.col('id', 'int'), A.col('x', 'varchar')]),
-            A.table('c', [A.col('id', 'uuid'), A.col('x', 'text')], schema='s')]
+            A.table('a', [A.col('id', 'uuid'), A.col('x', 'text')], schema='s')]
 
 
 def mkref(kind, inline, arity, left, right, name, ou, od, swap=False):
@@ -114,7 +114,8 @@ def check_set(p, specs, label, parsed=False):
         # each element's own .sql must say the same as the database text (element agreement for refs)
         p['outcomes'][f'{label}/{route}/' + ('exact' if not probs else 'differs')] += 1
         if probs:
-            p['violations'].append(violation(PID, 'fk-differs', dict(case, route=route), observed=probs[:4], detail=probs[0][:500]))
+            kind = 'join-columns-collide' if all('COLLIDE' in x for x in probs) else 'fk-differs'
+            p['violations'].append(violation(PID, kind, dict(case, route=route), observed=probs[:4], detail=probs[0][:500]))
     p['nontrivial'].add(digest(case))
 
 
